@@ -861,7 +861,7 @@ example : let inputs : List (String × PInput) := [("a", .table tA), ("b", .tabl
 /-- the hypotheses of `join_keys_inner` are satisfiable: two inputs keyed by `k` -/
 example : FoldOK ["k"] tA [tB] := ⟨by decide, by decide, by decide, by decide⟩
 
--- an expiry DATE (wire `DT:`, a `datetime.date`) is read as that day: past -> kept, no call (fix fb67b4d on the code side)
+-- an expiry DATE (wire `DT:`, a `datetime.date`) is read as that day: past -> kept, no call (fix 7ea4860 on the code side)
 #guard (match perdictable fEx ["a"] ["k"] [] [("a", .table tA),
       ("data", .table [("k", [.int 1, .int 2, .int 3]), ("data", [.str "o1", .str "o2", .str "o3"])])] (.scalar (.dt 5)) 10 false with
   | some (.ok (_, log)) => log == []
